@@ -196,6 +196,13 @@ class Reader:
     def get_field(self, path, st, t=None):
         if path in st.fields:
             return st.fields[path]
+        # member of a struct that was assigned as a whole (struct copy): this.anchor_ = arg  =>  this.anchor_.x is arg.x
+        for n in range(len(path) - 1, 0, -1):
+            pv = st.fields.get(path[:n])
+            if isinstance(pv, sp.Symbol) and not pv.name.startswith('this.'):
+                base = pv.name[4:] if pv.name.startswith('arg:') else pv.name
+                v = self.symbol(base + '.' + '.'.join(path[n:]), t)
+                return v
         self.read_fields.add(path)
         v = None
         if self.field_init is not None:
@@ -374,6 +381,19 @@ class Reader:
                 return [(st.locals.get(lv[1], Opaque(pp(e))), st)]
             nm = _struct_member_name(e)
             if nm is not None:
+                root, parts = _struct_root(e)
+                if root is not None and root['id'] in st.alias:
+                    return [(self.get_field(st.alias[root['id']] + tuple(parts), st, e['t']), st)]
+                bound = st.locals.get(root['id']) if root is not None else None
+                if isinstance(bound, sp.Symbol):
+                    base = bound.name[4:] if bound.name.startswith('arg:') else bound.name
+                    nm = '.'.join([base] + parts)
+                elif isinstance(bound, dict):
+                    v = bound
+                    for p in parts:
+                        v = v.get(p) if isinstance(v, dict) else None
+                    if v is not None:
+                        return [(v, st)]
                 key = ('struct', nm)
                 if key not in st.fields:
                     st.fields[key] = self.symbol(nm, e['t'])
@@ -615,7 +635,8 @@ class Reader:
                 out.append((self.arith(e['op'], vals[0], vals[1], {'t': e['t'], 'l': a0, 'r': a1, 'k': 'Bin', 'op': e['op']}), s2))
             if all(isinstance(v, sp.Basic) for (v, _) in out):
                 return out
-        if k == 'Op' and e['op'] in ('=', '+=', '-=', '*=', '/=') and len(e.get('args', [])) == 2 and not e.get('inrepo'):
+        if k == 'Op' and e['op'] in ('=', '+=', '-=', '*=', '/=') and len(e.get('args', [])) == 2 and \
+                (not e.get('inrepo') or (self.facts.functions.get(e.get('fk')) or {}).get('body') is None):
             lv = self.lvalue(e['args'][0], st, ctx)
             if lv and lv[0] in ('field', 'local'):
                 out = []
@@ -773,6 +794,17 @@ def _as_bool(v):
     if isinstance(v, sp.Basic):
         return sp.Ne(v, 0)
     raise TypeError('not a boolean')
+
+
+def _struct_root(e):
+    parts = []
+    x = e
+    while x is not None and x.get('k') == 'Member' and x.get('field'):
+        parts.append(x['name'])
+        x = strip_casts(x['base'])
+    if x is not None and x.get('k') == 'Ref' and x.get('rk') in ('param', 'local'):
+        return x, parts[::-1]
+    return None, parts[::-1]
 
 
 def _truth(c):
